@@ -123,10 +123,9 @@ def adminOf (fam : Family) (m : Minter) (c : Coll) : Addr :=
 
 /-- bound + default of `instantiate` (vending / open edition / token merge): `start_time.plus_seconds(offset)` -/
 def boundedOrDefault (start offset : Nat) (req : Option Nat) : Except Err (Option Nat) :=
-  let d := plusSeconds start offset
   match req with
-  | some t => if t > d then .error .invalid else .ok (some t)
-  | none => .ok (some d)
+  | some t => if t > plusSeconds start offset then .error .invalid else .ok (some t)
+  | none => .ok (some (plusSeconds start offset))
 
 /-- the trading time a CreateMinter stores in the collection, or `err` (time-related checks of factory + minter instantiate;
 all other arguments are held valid by the harness) -/
@@ -155,7 +154,7 @@ def tradingUpdateOk (fam : Family) (now mintStart offset : Nat) (req : Option Na
   | none => true
   | some t =>
     if now > t then false
-    else if fam != .base && decide (t > plusSeconds mintStart offset) then false
+    else if fam ≠ .base ∧ t > plusSeconds mintStart offset then false
     else true
 
 inductive Op where
@@ -178,18 +177,19 @@ inductive Op where
   | collOwn (sender : Addr) (a : OwnAction)
 deriving Repr, DecidableEq
 
+/-- the minter's config after `instantiate` -/
+def mkMinter (fam : Family) (creator : Addr) (start : Nat) (end_ : Option Nat) : Minter :=
+  { admin := creator
+    mintStart := if fam = .base then 0 else start
+    endTime := if fam = .openEdition then end_ else none }
+
 def create (w : World) (kind : CollKind) (creator : Addr) (start : Nat) (end_ req : Option Nat) : Except Err World :=
   match w.mc with
   | some _ => .error .other          -- the model follows ONE minter per case
   | none =>
     match createTrading w.family w.now w.offset start end_ req with
     | .error e => .error e
-    | .ok tr =>
-      let m : Minter :=
-        { admin := creator
-          mintStart := if w.family = .base then 0 else start
-          endTime := if w.family = .openEdition then end_ else none }
-      .ok { w with mc := some (m, Coll.init kind w.minterAddr creator tr) }
+    | .ok tr => .ok { w with mc := some (mkMinter w.family creator start end_, Coll.init kind w.minterAddr creator tr) }
 
 /-- `execute_update_start_trading_time` + the sub-message to the collection (whole transaction fails if it fails) -/
 def updTrading (w : World) (sender : Addr) (req : Option Nat) (funds : Nat) : Except Err World :=
